@@ -415,4 +415,86 @@ theorem explicit_match_iff (a : RuleArgs) (m : Msg) (hwf : a.WF) :
   unfold Spec.specMatches
   simp only [Bool.and_eq_true, and_assoc]
 
+/-! ### the `arg0namespace` clause (fixes/C14-05) and the matcher of either tree -/
+
+/-- Well-formed over ALL keys: `RuleArgs.WF`, and the `arg0namespace` value is not the empty string either (the
+router drops it - `if arg0namespace:` - like every other falsy value). -/
+structure RuleArgs.WFAll (a : RuleArgs) : Prop where
+  base : a.WF
+  arg0ns : a.arg0ns ≠ some []
+
+theorem lookup_arg0ns (a : RuleArgs) :
+    (explicitRule a).attrs.lookup "arg0namespace".toList
+      = if (optStr a.arg0ns).truthy then some (optStr a.arg0ns) else none := by
+  unfold explicitRule optE
+  cases (optStr a.arg0ns).truthy <;> cases (optPairs a.argPaths).truthy <;> cases (optPairs a.args).truthy
+    <;> cases (optStr a.pathNs).truthy <;> cases (optStr a.sender).truthy <;> rfl
+
+theorem matchArg0ns_ne_call (r : Rule) (body : List Arg) : matchArg0ns r body ≠ some .call := by
+  unfold matchArg0ns
+  split
+  · simp
+  · split
+    · split <;> simp
+    · simp
+  · simp
+
+theorem ite_none_iff (b : Bool) : (if b = true then (none : Option Outcome) else some .skip) = none ↔ b = true := by
+  cases b <;> simp
+
+theorem arg0ns_iff (a : RuleArgs) (m : Msg) (h : a.arg0ns ≠ some []) :
+    matchArg0ns (explicitRule a) (m.body.getD []) = none ↔ Spec.optAll a.arg0ns (Spec.arg0In m) = true := by
+  unfold matchArg0ns
+  rw [lookup_arg0ns]
+  cases ha : a.arg0ns with
+  | none => simp [optStr, PyVal.truthy, Spec.optAll]
+  | some ns =>
+    cases ns with
+    | nil => exact absurd ha h
+    | cons c t =>
+      simp only [optStr, PyVal.truthy, List.isEmpty_cons, Bool.not_false, if_true, Spec.optAll, Spec.arg0In, Msg.arg?,
+        List.head?_eq_getElem?]
+      cases (m.body.getD [])[0]? with
+      | none => simp
+      | some x =>
+        cases x with
+        | other => simp
+        | str s =>
+          simp only [inBusNamespace, Spec.inBusNamespace]
+          exact ite_none_iff _
+
+theorem explicit_matchWith_iff (ev : Bool) (a : RuleArgs) (m : Msg) (hwf : a.WFAll) :
+    (explicitRule a).matchWith ev m = .call ↔ Spec.specMatchesWith ev a m = true := by
+  have hbase := explicit_match_iff a m hwf.base
+  have h0 := arg0ns_iff a m hwf.arg0ns
+  have hne := matchArg0ns_ne_call (explicitRule a) (m.body.getD [])
+  unfold Rule.matchWith Spec.specMatchesWith Spec.specMatchesFull
+  cases ev with
+  | false =>
+    simp only [Bool.false_eq_true, if_false]
+    cases hm : (explicitRule a).match m <;> simp_all
+  | true =>
+    simp only [if_true, Bool.and_eq_true]
+    cases hm : (explicitRule a).match m with
+    | call =>
+      simp only
+      cases ha : matchArg0ns (explicitRule a) (m.body.getD []) with
+      | none => simp_all
+      | some o =>
+        have hn : ¬ (matchArg0ns (explicitRule a) (m.body.getD []) = none) := by rw [ha]; simp
+        have : ¬ (Spec.optAll a.arg0ns (Spec.arg0In m) = true) := fun e => hn (h0.mpr e)
+        constructor
+        · intro e; subst e; exact absurd ha hne
+        · intro e; exact absurd e.2 this
+    | skip =>
+      have : ¬ (Spec.specMatches a m = true) := fun e => by rw [hbase.mpr e] at hm; cases hm
+      simp [this]
+    | err =>
+      have : ¬ (Spec.specMatches a m = true) := fun e => by rw [hbase.mpr e] at hm; cases hm
+      simp [this]
+
+theorem explicit_matchGen_iff (a : RuleArgs) (m : Msg) (hwf : a.WFAll) :
+    (explicitRule a).matchGen m = .call ↔ Spec.specMatchesGen a m = true :=
+  explicit_matchWith_iff _ a m hwf
+
 end Txdbus.Route
